@@ -170,12 +170,12 @@ def livePre : List In := List.replicate 20 (cyc false 0 0) ++ sendHdr hdrA ++ [c
 /-- two stalled cycles, then a granted one, 70 times: fair for `K = 3` -/
 def livePost : List In := (List.replicate 70 [stall, stall, cyc false 0 0]).flatten
 
-example : EnvOk ⟨true, false⟩ init Ghost.init (livePre ++ livePost) ∧ FairOk 3 0 livePost ∧
+example : EnvOk ⟨true, false, false⟩ init Ghost.init (livePre ++ livePost) ∧ FairOk 3 0 livePost ∧
     3 * (52 + 4 * countIn (·.retryRequired) livePost) ≤ livePost.length ∧
-    (runG ⟨true, false⟩ init Ghost.init livePre).2.accepted.length = 1 ∧
-    (runG ⟨true, false⟩ init Ghost.init livePre).2.delivered.length = 1 ∧
-    (runG ⟨true, false⟩ init Ghost.init livePre).2.lgoods.length = 1 ∧
-    (runG ⟨true, false⟩ init Ghost.init livePre).2.lcrds.length = 4 := by decide +kernel
+    (runG ⟨true, false, false⟩ init Ghost.init livePre).2.accepted.length = 1 ∧
+    (runG ⟨true, false, false⟩ init Ghost.init livePre).2.delivered.length = 1 ∧
+    (runG ⟨true, false, false⟩ init Ghost.init livePre).2.lgoods.length = 1 ∧
+    (runG ⟨true, false, false⟩ init Ghost.init livePre).2.lcrds.length = 4 := by decide +kernel
 
 
 /-- bring-up, then a corrupted header (LBAD owed), with retry / keepalive / power-state requests pending -/
@@ -183,15 +183,15 @@ def livePre2 : List In :=
   List.replicate 20 (cyc false 0 0) ++ sendHdr hdrBad ++
   [{ cyc false 0 0 with retryRequired := true, keepaliveRequired := true, rejectPower := true }]
 
-example : EnvOk ⟨true, false⟩ init Ghost.init (livePre2 ++ livePost) ∧
-    (runG ⟨true, false⟩ init Ghost.init livePre2).2.bads = 1 ∧
-    (runG ⟨true, false⟩ init Ghost.init livePre2).2.lbads = 0 ∧
-    (runG ⟨true, false⟩ init Ghost.init livePre2).1.lrty = true ∧
-    (runG ⟨true, false⟩ init Ghost.init livePre2).1.lxu = true ∧
-    (runG ⟨true, false⟩ init Ghost.init livePre2).1.keepalive = true ∧
-    3 * (52 + 20 * badKCount ⟨true, false⟩ (runG ⟨true, false⟩ init Ghost.init livePre2).1
-      (runG ⟨true, false⟩ init Ghost.init livePre2).2 livePost) ≤ livePost.length ∧
-    lrtysRun ⟨true, false⟩ (runG ⟨true, false⟩ init Ghost.init livePre2).1 0 livePost = 1 ∧
-    kasRun ⟨true, false⟩ (runG ⟨true, false⟩ init Ghost.init livePre2).1 0 livePost = 1 := by decide +kernel
+example : EnvOk ⟨true, false, false⟩ init Ghost.init (livePre2 ++ livePost) ∧
+    (runG ⟨true, false, false⟩ init Ghost.init livePre2).2.bads = 1 ∧
+    (runG ⟨true, false, false⟩ init Ghost.init livePre2).2.lbads = 0 ∧
+    (runG ⟨true, false, false⟩ init Ghost.init livePre2).1.lrty = true ∧
+    (runG ⟨true, false, false⟩ init Ghost.init livePre2).1.lxu = true ∧
+    (runG ⟨true, false, false⟩ init Ghost.init livePre2).1.keepalive = true ∧
+    3 * (52 + 20 * badKCount ⟨true, false, false⟩ (runG ⟨true, false, false⟩ init Ghost.init livePre2).1
+      (runG ⟨true, false, false⟩ init Ghost.init livePre2).2 livePost) ≤ livePost.length ∧
+    lrtysRun ⟨true, false, false⟩ (runG ⟨true, false, false⟩ init Ghost.init livePre2).1 0 livePost = 1 ∧
+    kasRun ⟨true, false, false⟩ (runG ⟨true, false, false⟩ init Ghost.init livePre2).1 0 livePost = 1 := by decide +kernel
 
 end LunaVerif.HeaderRx
